@@ -488,3 +488,33 @@ func (x *Cell) parallelBFS(name string, opts BFSOpts, run RunHist) (reps [][]int
 	x.Note("bfs_depth_"+name, int64(depth))
 	return reps
 }
+
+// RunOne executes body exactly once with the given choice prefix (default choices afterwards). A prefix that does
+// not fit the execution (fewer decisions, fewer alternatives) is not an error: the schedule simply does not exist.
+// Violations are emitted at once, without re-execution: RunOne is for phenomena that exist once per process.
+func (x *Cell) RunOne(name string, prefix []int, body Body) {
+	c := &Chooser{Prefix: prefix}
+	var e Exec
+	diverged := false
+	func() {
+		defer func() {
+			if r := recover(); r != nil {
+				if _, ok := r.(ErrDiverged); ok {
+					diverged = true
+					return
+				}
+				panic(r)
+			}
+		}()
+		e = body(c)
+	}()
+	if diverged {
+		x.Note("schedule_does_not_exist", 1)
+		return
+	}
+	x.Executions++
+	x.Outcome(name + "|" + e.Outcome)
+	if e.Premise {
+		x.Premise++
+	}
+}
